@@ -1,7 +1,52 @@
 #!/usr/bin/env python3
 
+import torch
+
 from ..models import GP
 from ..module import Module
+from ..priors import Prior
+
+
+def _module_batch_shape(module):
+    """
+    The batch shape of the parameters owned by `module`: its `batch_shape` attribute if it has one, otherwise
+    (containers such as likelihoods or models) the broadcast batch shape of its sub-modules. `None` if unknown.
+    """
+    batch_shape = getattr(module, "batch_shape", None)
+    if batch_shape is not None:
+        return torch.Size(batch_shape)
+    shapes = [_module_batch_shape(child) for child in module.children() if not isinstance(child, Prior)]
+    shapes = [shape for shape in shapes if shape is not None]
+    if not shapes:
+        return None
+    try:
+        return torch.broadcast_shapes(*shapes)
+    except RuntimeError:
+        return None
+
+
+def _expands_to(shape, target_shape):
+    try:
+        return torch.broadcast_shapes(shape, target_shape) == target_shape
+    except RuntimeError:
+        return False
+
+
+def _batch_prior_term(prior_term, module, res_shape):
+    """
+    Reduces the log density of a prior on (a function of) the parameters of `module` to the batch shape of an
+    objective of shape `res_shape`. The leading (batch) dimensions of a parameter are those of the module that
+    owns it, and they broadcast against the batch shape of the objective from the right: everything else is
+    summed, as are batch dimensions of the module that the objective does not have (e.g. the task dimension of
+    batch-independent multi-output models).
+    """
+    module_batch_shape = _module_batch_shape(module)
+    num_batch_dims = len(res_shape) if module_batch_shape is None else len(module_batch_shape)
+    num_batch_dims = min(num_batch_dims, prior_term.ndim)
+    prior_term = prior_term.reshape(*prior_term.shape[:num_batch_dims], -1).sum(dim=-1)
+    while prior_term.ndim > 0 and not _expands_to(prior_term.shape, res_shape):
+        prior_term = prior_term.sum(dim=-1)
+    return prior_term
 
 
 class MarginalLogLikelihood(Module):
